@@ -41,6 +41,9 @@ def check(ctx):
     ctx.guard("C07-C", rule_c)
     ctx.guard("C07-D", rule_d)
     ctx.guard("C07-E", rule_e)
+    ctx.rule("C07-F", "a list node's children are its items and nothing else: insert_child never pushes a marker or generated "
+             "content into a node kind whose renderer gives every child an item prefix")
+    ctx.guard("C07-F", rule_f)
 
 
 def _append_sites(F):
@@ -311,3 +314,27 @@ def rule_e(ctx):
     ctx.check(len(z) == 1 and len(il) == 1, "C07-E", "lines-zipped-with-prefixes", b.span, b.id, "")
     bad = [callee_method(t) for bb, t in b.calls() if callee_method(t) in ("rev", "skip", "take", "step_by", "filter")]
     ctx.check(not bad, "C07-E", "all-lines-in-order", b.span, b.id, str(bad))
+
+
+def rule_f(ctx):
+    """Sibling agreement between the render walk and insert_child: the kinds whose arm of do_render_node prefixes
+    *each child* (calls ordered_item_prefix / unordered_item_prefix per child) must not be among the kinds into whose
+    children insert_child pushes a FragStart / ::before text — such a child would be numbered like an item."""
+    F = ctx.facts
+    drn, arms = arms_of_do_render_node(F)
+    itemised = set()
+    for vn, (tb, region) in arms.items():
+        for body, blocks in arm_bodies(F, drn, region):
+            if calls_in(body, blocks, lambda cd, t: callee_method(t) in ("ordered_item_prefix", "unordered_item_prefix")):
+                itemised.add(vn)
+    ctx.floor("C07-F", "node kinds whose children are all items", len(itemised), 2)
+    ic = F.one("insert_child")
+    info = F.adt("RenderNodeInfo")
+    names = {v["discr"]: v["name"] for v in info["variants"]}
+    disp = find_dispatch(ic, "RenderNodeInfo", 3)
+    inplace = {names[v] for v, tb in ic.term(disp)["targets"]}
+    for vn in sorted(itemised):
+        ctx.check(vn not in inplace, "C07-F", "insert_child:not-into-%s" % vn, ic.span, ic.id,
+                  "insert_child pushes the marker / generated content of an element with an id into the children of a %s "
+                  "node; the renderer treats every child of a %s as an item (it would take a number / bullet and shift "
+                  "the following ones)" % (vn, vn))
